@@ -7,6 +7,7 @@ use verif_harness::*;
 
 mod fam_path;
 mod fam_signed;
+mod fam_rules;
 
 pub type O = Out<BufWriter<File>>;
 
@@ -42,6 +43,16 @@ fn main() {
         "c01" => fam_signed::c01(&mut o, tier, &mut rng),
         "c02" => fam_signed::c02(&mut o, tier, &mut rng, 2),
         "c15" => fam_signed::c02(&mut o, tier, &mut rng, 15),
+        "c03" => fam_rules::c03(&mut o, tier, &mut rng),
+        "c04" => fam_rules::c04(&mut o, tier, &mut rng),
+        "c05" => fam_rules::c05(&mut o, tier, &mut rng),
+        "c11" => fam_rules::c11(&mut o, tier, &mut rng),
+        "c12" => fam_rules::c12(&mut o, tier, &mut rng),
+        "c13" => fam_rules::c13(&mut o, tier, &mut rng, 13),
+        "c14" => fam_rules::c14(&mut o, tier, &mut rng),
+        "c16e" => fam_rules::c16_e2e(&mut o, tier, &mut rng),
+        "c19" => fam_rules::c19(&mut o, tier, &mut rng),
+        "c08" => fam_rules::c08(&mut o, tier, &mut rng),
         "replay" => {
             let line = args[5..].join(" ");
             replay_one(&mut o, &line);
